@@ -325,7 +325,18 @@ def handle (line : String) : String :=
       (rest.find? (·.startsWith (k ++ "="))).map (fun f => (f.drop (k.length + 1)).toString)
     match (get "before").bind (·.toNat?), get "toA", get "okA", get "toB", get "okB", (get "after").bind (·.toNat?), get "sent" with
     | some before, some toA, some okA, some toB, some okB, some after, some sent =>
-      if okA != "false" || okB != "true" then "skip gated-overlap-answers"
+      -- the copies the node holds while A's transmission is in progress
+      let held := if alg == "binary" then before - before / 2 else before - 1
+      if okA == "false" && toB == "" then
+        -- B was not served by the second run: right iff the node is down to its last copy (wait phase);
+        -- A's failure then restores everything
+        if 2 ≤ held then s!"specfail second-run-did-not-serve-new-peer before={before} held={held}"
+        else if after != before then
+          s!"specfail failure-not-restored-after-another-run before={before} after={after}"
+        else if sent != "-" then s!"specfail failed-peer-still-booked-after-another-run sent={sent}"
+        else "ok"
+      else if okA != "false" || okB != "true" then "skip gated-overlap-answers"
+      else if held < 2 then s!"specfail last-copy-given-away before={before} held={held}"
       else if alg == "binary" then
         match toA.toNat?, toB.toNat? with
         | some a, some b =>
